@@ -452,7 +452,8 @@ void ezc3d::c3d::analog(const std::vector<ezc3d::DataNS::Frame> &frames)
                 throw std::invalid_argument("The channel you try to create already exists in the data set");
     }
     for (size_t f=0; f < data().nbFrames(); ++f){
-        if (frames[f].analogs().nbSubframes() != header().nbAnalogByFrame())
+        if (frames[f].analogs().nbSubframes() != header().nbAnalogByFrame()
+                || data().frame(f).analogs().nbSubframes() != header().nbAnalogByFrame())
             throw std::invalid_argument("Size of the subframes in the frames must equal the number of subframes "
                                         "already present in the data set");
         for (size_t sf=0; sf < header().nbAnalogByFrame(); ++sf)
